@@ -520,6 +520,49 @@ pub fn with_record<T>(ctx: &RecCtx, pieces: &[String], f: impl FnOnce(&Record) -
         .build())
 }
 
+/// A message whose `Display` implementation itself encodes another record through the same encoder (into
+/// its own buffer) before it writes its text - what happens when formatting an argument logs something.
+pub struct NestingMsg<'a> {
+    pub enc: &'a dyn encode::Encode,
+    pub inner: &'a RecCtx,
+    pub text: &'a str,
+    /// bytes of the nested record, or the error of the nested encode
+    pub inner_out: std::cell::RefCell<Option<Result<Vec<u8>, String>>>,
+}
+
+impl<'a> std::fmt::Display for NestingMsg<'a> {
+    fn fmt(&self, f: &mut std::fmt::Formatter<'_>) -> std::fmt::Result {
+        let mut w = CapW::new();
+        let pieces = vec![self.inner.message.clone()];
+        let r = with_record(self.inner, &pieces, |rec| self.enc.encode(&mut w, rec));
+        *self.inner_out.borrow_mut() = Some(match r {
+            Ok(()) => Ok(w.bytes),
+            Err(e) => Err(e.to_string()),
+        });
+        f.write_str(self.text)
+    }
+}
+
+/// Like `with_record`, with an arbitrary `Display` as the message.
+pub fn with_record_display<T>(ctx: &RecCtx, d: &dyn std::fmt::Display, f: impl FnOnce(&Record) -> T) -> T {
+    f(&Record::builder()
+        .level(ctx.level)
+        .target(&ctx.target)
+        .module_path(ctx.module.as_deref())
+        .file(ctx.file.as_deref())
+        .line(ctx.line)
+        .args(format_args!("{}", d))
+        .build())
+}
+
+pub fn has_date(nodes: &[Node]) -> bool {
+    nodes.iter().any(|n| match n {
+        Node::Fmt(Kind::Date { .. }, _) => true,
+        Node::Fmt(Kind::Group(c) | Kind::Highlight(c) | Kind::Debug(c) | Kind::Release(c), _) => has_date(c),
+        _ => false,
+    })
+}
+
 // ------------------------------------------------------------ generators
 
 pub const TEXT_POOL: [&str; 24] = [
